@@ -181,6 +181,31 @@ def handle (op : String) (j : Json) : Option Json :=
       let cmd ← getS? j "cmd"
       pure (Json.mkObj [("text", str (wrap c cmd)),
                         ("words", Json.arr ((wrapWords c).map str).toArray)])
+  | "c20.exec" => do
+      -- wrapper built from the granted capabilities -> flag words -> denoise.py's parser -> _exec
+      let c : WrapCfg := {
+        useNice := ← getBool? j "use_nice"
+        useShielding := ← getBool? j "use_shielding"
+        envKeys := []
+        profiling := ← getBool? j "profiling"
+        cset := ← (match j.getObjVal? "cset" with
+                   | .ok Json.null => some none
+                   | .ok (Json.str s) => some (some s.toList)
+                   | _ => none)
+        denoise := ← getS? j "denoise"
+        numCores := ← getS? j "num_cores" }
+      let lookup ← (match j.getObjVal? "lookup" with
+                   | .ok Json.null => some none
+                   | .ok (Json.str s) => some (some s.toList)
+                   | _ => none)
+      let n ← getNat? j "n"
+      let cmd ← (getArr? j "cmd").bind (fun a => a.toList.mapM (fun v => (asStr? v).map String.toList))
+      let f := parseFlags (flagWords c) {}
+      pure (Json.mkObj [("flag_words", Json.arr ((flagWords c).map str).toArray),
+                        ("argv", Json.arr ((execArgv f lookup cmd).map str).toArray),
+                        ("core_set", match execCoreSet f lookup n with
+                                     | some (lo, hi) => Json.arr #[Json.num lo, Json.num hi]
+                                     | none => Json.null)])
   | "c20.shield" => do
       let n ← getNat? j "n"
       pure (Json.mkObj [("lo", Json.num (shieldLo n)), ("hi", Json.num (shieldHi n))])
